@@ -383,7 +383,13 @@ func (c *syntaxLoader) collectDirectives(p ast.ParserSection) {
 	}
 	// Sets pass 2. Resolve the rhs.
 	for _, s := range setsToResolve {
-		*c.out.Sets[s.index] = *c.convertSet(s.expr)
+		set := c.convertSet(s.expr)
+		if slices.Contains(c.out.Sets, set) {
+			// A plain reference to another named set, which might not be resolved yet. Keep
+			// the link instead of copying its current content.
+			set = &syntax.TokenSet{Kind: syntax.Union, Sub: []*syntax.TokenSet{set}, Origin: s.expr.TmNode()}
+		}
+		*c.out.Sets[s.index] = *set
 	}
 
 	for _, mapping := range c.mapping {
